@@ -1,5 +1,170 @@
-"""Shared generator of dialect programs (GenSyn/GenTight behaviours rendered to bytes)."""
+"""Shared generator of dialect programs: GenProg.tla behaviours (TLC) rendered to bytes.
+
+A behaviour is {'toks': [...], 'deriv': [...]}; each real token carries its terminal `t`, concrete
+spelling `w`, block depth `d`, chain of enclosing line scopes `s` (innermost first) and the
+spec-computed flag `sep` (must be separated from the previous token). "SB" entries mark statement
+boundaries (optional `;`, free layout).
+"""
+import json
+
+from . import core
+
+CFG = '''SPECIFICATION Spec
+CONSTANTS MaxToks = %d
+MaxDeriv = %d
+MaxDepth = %d
+Mode = "%s"
+CONSTRAINT Emit
+CHECK_DEADLOCK FALSE
+'''
+
+LAYOUTS = ('tight', 'spaced', 'lines', 'comments', 'semis')
+
+_cache = {}
 
 
-def program_sources(ctx, rnd, n):
-    return []
+def generate(ctx, mode='all', max_toks=6, max_depth=3, simulate=None, sim_depth=400, max_deriv=None):
+    """Returns the list of complete behaviours TLC printed."""
+    key = (mode, max_toks, max_depth, simulate, ctx.seed)
+    if key in _cache:
+        return _cache[key]
+    cfg = CFG % (max_toks, max_deriv or (max_toks * 12 + 20), max_depth, mode)
+    if simulate:
+        r = ctx.tlc('GenProg', cfg, simulate='num=%d' % simulate, depth=sim_depth, workers=1,
+                    name='GenProg_sim_%s_%d' % (mode, max_toks), timeout=600)
+    else:
+        r = ctx.tlc('GenProg', cfg, name='GenProg_%s_%d' % (mode, max_toks))
+    behs = r.jsons
+    # de-duplicate simulation output (a finished walk may be printed more than once)
+    if simulate:
+        seen = set()
+        out = []
+        for b in behs:
+            k = json.dumps(b, sort_keys=True)
+            if k not in seen:
+                seen.add(k)
+                out.append(b)
+        behs = out
+    _cache[key] = behs
+    return behs
+
+
+def real_tokens(beh):
+    return [t for t in beh['toks'] if t['t'] != 'SB']
+
+
+def render(beh, layout='spaced', rnd=None, final_newline=True, crlf=False):
+    """Concrete bytes for a behaviour, or None when the behaviour cannot be laid out
+    (statement after a nested short-if inside the outer one; statement starting with `(`
+    directly inside a short-if)."""
+    toks = beh['toks']
+    out = []
+    prev = None
+    sb_pending = False
+    line_has_comment = False
+    seen_scopes = set()
+    body_start = False
+    for idx, t in enumerate(toks):
+        if t['t'] == 'SB':
+            sb_pending = True
+            # the first statement boundary inside a line scope is the start of the short-if body
+            body_start = bool(t['s']) and t['s'][0] not in seen_scopes
+            if t['s']:
+                seen_scopes.add(t['s'][0])
+            continue
+        w = bytes(t['w'])
+        if prev is None:
+            if layout == 'lines' and rnd is not None:
+                out.append(b' ' * rnd.randrange(4))
+            out.append(w)
+            prev = t
+            sb_pending = False
+            continue
+        ps, ts = prev['s'], t['s']
+        common = [x for x in ts if x in ps]
+        ended = [x for x in ps if x not in ts]
+        if ended and common:
+            return None
+        no_nl = bool(common)
+        must_nl = bool(ended) or line_has_comment
+        must_semi = sb_pending and w == b'(' and not no_nl
+        if sb_pending and w == b'(' and no_nl:
+            return None
+        if sb_pending and body_start and w == b'do':
+            return None     # `if (c) do` is picotool's deliberate loophole form, outside the dialect
+        gap = b''
+        if must_semi or (layout == 'semis' and sb_pending):
+            gap += b';'
+        if must_nl:
+            gap += b'\n'
+            line_has_comment = False
+        elif layout == 'tight':
+            if sb_pending and not no_nl:
+                gap += b'\n'
+            elif t['sep'] and not gap:
+                gap += b' '
+        elif layout in ('spaced', 'semis'):
+            if sb_pending and not no_nl:
+                gap += b'\n'
+            else:
+                gap += b' '
+        elif layout == 'lines':
+            if no_nl:
+                gap += b' '
+            else:
+                gap += b'\n' + (b' ' * rnd.randrange(5) if rnd else b'') + (b'\t' if rnd and rnd.randrange(4) == 0 else b'')
+        elif layout == 'comments':
+            c = rnd.randrange(6) if rnd else 0
+            if c == 0 and not no_nl:
+                gap += b' --c' + bytes([rnd.randrange(33, 127)]) + b'\n'
+            elif c == 1 and not no_nl:
+                gap += b' //' + bytes([rnd.randrange(128, 256)]) + b'\n'
+            elif c == 2:
+                gap += b' --[[b]]'
+                if t['sep'] or rnd.randrange(2):
+                    gap += b' '
+            elif c == 3 and not no_nl:
+                gap += b'\n\n'
+            elif c == 4 and not no_nl:
+                gap += b' --[[m\nm]] '
+            else:
+                gap += b' '
+        if crlf:
+            gap = gap.replace(b'\n', b'\r\n')
+        out.append(gap)
+        out.append(w)
+        prev = t
+        sb_pending = False
+    src = b''.join(out)
+    if final_newline and src:
+        src += b'\r\n' if crlf else b'\n'
+    return src
+
+
+def scopes_of(beh):
+    """[(first, last)] 1-based indices over real tokens of each line scope."""
+    spans = {}
+    n = 0
+    for t in beh['toks']:
+        if t['t'] == 'SB':
+            continue
+        n += 1
+        for s in t['s']:
+            a, b = spans.get(s, (n, n))
+            spans[s] = (min(a, n), max(b, n))
+    return [list(v) for k, v in sorted(spans.items())]
+
+
+def program_sources(ctx, rnd, n, layouts=('tight', 'spaced', 'lines', 'comments', 'semis')):
+    """n rendered programs (name, src) drawn from exhaustive <= 6 tokens plus deep simulated ones."""
+    behs = generate(ctx, 'all', 6)
+    deep = generate(ctx, 'all', 40, max_depth=4, simulate=max(50, n // 2))
+    out = []
+    pool = [b for b in behs if real_tokens(b)]
+    picks = [pool[rnd.randrange(len(pool))] for _ in range(n // 2)] + deep[:n - n // 2]
+    for k, b in enumerate(picks):
+        lay = layouts[k % len(layouts)]
+        src = render(b, lay, rnd, crlf=(k % 7 == 3))
+        if src:
+            out.append(('gen%d/%s' % (k, lay), src))
+    return out
